@@ -43,7 +43,9 @@ class _NullSelector(selectors.BaseSelector):
         if timeout > 0 and loop._scheduled:
             when = loop._scheduled[0]._when
             if when > loop._vtime:
-                loop._vtime = when
+                # a loaded host wakes the loop late: `lateness()` seconds after the earliest timer is due
+                late = loop.lateness() if getattr(loop, "lateness", None) else 0.0
+                loop._vtime = when + late
         return []
 
     def close(self):
